@@ -94,6 +94,7 @@ type RunResult struct {
 	Order        []string
 	Err          error
 	Blocked      []string
+	Leaked       int // goroutines left blocked for ever in a real operation of the generated code
 	Steps        int
 	Switches     int
 	SwitchHash   uint64
@@ -689,6 +690,8 @@ func Exec(p *Pkg, plan *RunPlan, t *tape.Tape, logOn bool) *RunResult {
 	}
 	if res.Err != nil {
 		res.Blocked = s.Blocked()
+		res.Leaked = s.LeakedBlocked()
+		LeakedTotal += res.Leaked
 	}
 	if RawSourceFailures > 0 {
 		s.Probes["raw_response_source_failed_mid_copy"] += RawSourceFailures
@@ -719,6 +722,9 @@ func (b *probeBody) Close() error {
 	}
 	return b.ReadCloser.Close()
 }
+
+// LeakedTotal: goroutines of this process that are blocked for ever (see RunResult.Leaked).
+var LeakedTotal int
 
 // RawSourceFailures counts handler-supplied raw response bodies that really failed mid-copy.
 var RawSourceFailures int
